@@ -101,6 +101,19 @@ theorem vWeights_sum (pw : ℝ → ℝ) (N : ℕ) (hN : 0 < N) (h0 : pw 0 = 0) (
       simp
   rw [key N, h0, div_self (by exact_mod_cast hN.ne'), h1]; ring
 
+/-- prefix form: the `k` smallest observations carry V-weight `pw (k/N) − pw 0`, i.e. (with `pw x = xⁿ`) the V-statistic
+weights are the law whose cdf is `Fⁿ` with `F` the unweighted empirical cdf — the same law whose atoms the average curve
+weights by `F_jⁿ − F_{j−1}ⁿ` (`bestWeights_total`); the two curves are expectations of one distribution. -/
+theorem vWeights_prefix (pw : ℝ → ℝ) (N k : ℕ) (hk : k ≤ N) :
+    ((vWeights pw N).take k).sum = pw ((k : ℝ) / (N : ℝ)) - pw 0 := by
+  unfold vWeights
+  rw [← List.map_take, List.take_range, min_eq_left hk]
+  induction k with
+  | zero => simp
+  | succ k ih =>
+    rw [List.range_succ, List.map_append, List.sum_append, ih (by omega)]
+    simp
+
 /-! ### naive curve -/
 
 section
